@@ -412,6 +412,12 @@ fn private_block(present: u8, secret: i32, hidden_members: &str, hidden_literal:
 	{
 		t.push_str(&format!("struct Hidden\n{{\n{hidden_members}}}\n"));
 	}
+	if present & 8 != 0
+	{
+		// a private function with the C calling convention
+		t.push_str(&format!("extern fn scale(v: i32) -> i32\n{{\n\treturn: v * {secret}\n}}\n"));
+		terms.push("scale(0)".to_string());
+	}
 	let _ = hidden_literal;
 	(t, terms.join(" + "))
 }
@@ -423,7 +429,7 @@ pub fn scenarios() -> Vec<Scenario>
 	let hidden = [("\tv: i32,\n", "Hidden { v: 3 }"), ("\tw: i64,\n\tv: i32,\n", "Hidden { w: 0, v: 3 }"), ("\tv: i32,\n\tz: [4]u8,\n", "Hidden { v: 3, z: [0, 0, 0, 0] }"), ("\tq: u8,\n\tv: i32,\n", "Hidden { q: 1, v: 3 }")];
 	for shape in ["star", "chain", "diamond"]
 	{
-		for present in 1u8..8
+		for present in 1u8..16
 		{
 			let nmod = if shape == "diamond" { 4 } else { 3 };
 			let mut files = Vec::new();
@@ -481,7 +487,7 @@ pub fn scenarios() -> Vec<Scenario>
 				"chain" => expected.push_str(&format!("m1={}\n", value(1) + value(2))),
 				_ => expected.push_str(&format!("m1={}\nm2={}\n", value(1) + value(3), value(2) + value(3))),
 			}
-			out.push(Scenario { name: format!("same private names ({}{}{}) in every module, {shape}", if present & 1 != 0 { "const " } else { "" }, if present & 2 != 0 { "fn " } else { "" }, if present & 4 != 0 { "struct" } else { "" }), class: "private names reused", files, expect: Expect::Accept(expected) });
+			out.push(Scenario { name: format!("same private names ({}{}{}{}) in every module, {shape}", if present & 1 != 0 { "const " } else { "" }, if present & 2 != 0 { "fn " } else { "" }, if present & 4 != 0 { "struct " } else { "" }, if present & 8 != 0 { "extern fn" } else { "" }), class: "private names reused", files, expect: Expect::Accept(expected) });
 		}
 	}
 	// (2) a public name two imports away is free for reuse, and is not visible
